@@ -4,18 +4,19 @@ import json, os, shutil, sys, re
 V = os.path.dirname(os.path.dirname(os.path.abspath(__file__)))
 tag = sys.argv[1]
 pid, x = tag[:3], tag[3]
-src = f"/tmp/out-{pid}"
+wave = tag[4:] or "1"
+src = f"/tmp/out-{pid}" if wave == "1" else f"/tmp/out{wave}-{pid}"
 ev = json.load(open(f"/tmp/eval/{tag}.json"))
 assert ev["applies"] and ev.get("tests_passed") == 55 and not ev.get("tests_failed"), ev
 assert ev["demo_patched_exit"] != 0 and ev["demo_clean_exit"] == 0, ev
-dst = os.path.join(V, "seeded", f"{pid}-{x}")
+dst = os.path.join(V, "seeded", f"{pid}-{x}" if wave == "1" else f"{pid}-{x}{wave}")
 os.makedirs(dst, exist_ok=True)
 shutil.copy(f"{src}/patch{x}.diff", f"{dst}/patch.diff")
 shutil.copy(f"{src}/demo{x}.py", f"{dst}/demo.py")
 notes = open(f"{src}/notes{x}.md").read()
 open(f"{dst}/notes.md", "w").write(notes)
 meta = {
-    "id": f"{pid}-{x}", "breaks_property": pid, "written_by": "independent sub-agent given only the property text and a scratch worktree",
+    "id": os.path.basename(dst), "breaks_property": pid, "written_by": "independent sub-agent given only the property text and a scratch worktree",
     "needs_to_manifest": re.sub(r"\s+", " ", notes)[:600],
     "confirmed_by": "tools/eval_seed.py (scratch worktree of /repo HEAD): patch applies; repository test suite 55 passed; demo exits non-zero with the patch and 0 on /repo",
     "tests_passed_with_patch": ev["tests_passed"], "demo_exit_patched": ev["demo_patched_exit"], "demo_exit_clean": ev["demo_clean_exit"],
